@@ -119,6 +119,9 @@ def menu(obj, extra_node, world=None):
             ops.append(("select", (o,)))
         if len(outs) == 2:
             ops.append(("select", tuple(outs)))
+        allo = tuple(o for o in obj.outputs if o not in obj._get_emit_only_outputs())
+        if ("select", allo) not in ops and 0 < len(allo) <= 5:
+            ops.append(("select", allo))  # widening back to EVERY output (after a narrower selection was used)
         for n in [n for n, v in obj.nodes.items() if not isinstance(v, GateNode)][:2]:
             ops.append(("with_entrypoint", n))
         if extra_node is not None and extra_node.name not in obj.nodes:
